@@ -928,6 +928,23 @@ pub fn c07(tier: Tier) -> i32 {
             let pos = rng.below(cfg.modes[0].pats.len() + 1);
             cfg.modes[0].pats.insert(pos, RefPattern { re: extra, tt, la: None });
         }
+        // hostile lookaheads: nullable or empty lookahead patterns (only the invariants are judged)
+        if with_la && rng.chance(1, 4) {
+            for p in cfg.modes[0].pats.iter_mut() {
+                if let Some((pos, _)) = p.la.clone() {
+                    let lit = |c: char| Re::Lit(c, LitStyle::Verbatim);
+                    let la = match rng.below(4) {
+                        0 => Re::Empty,
+                        1 => Re::Star(Box::new(lit('a'))),
+                        2 => Re::Opt(Box::new(lit('b'))),
+                        _ => Re::Alt(vec![Re::Empty, lit('c')]),
+                    };
+                    p.la = Some((pos, la));
+                    st.count("scan_with_nullable_lookahead_pattern");
+                    break;
+                }
+            }
+        }
         if !guard_roundtrip(&cfg) {
             return CaseOutcome::Skipped;
         }
@@ -1000,6 +1017,7 @@ pub fn c07(tier: Tier) -> i32 {
     .floor("scans", 50_000)
     .floor("scan_with_nullable_pattern", 5000)
     .floor("scan_with_lookahead", 5000)
+    .floor("scan_with_nullable_lookahead_pattern", 500)
     .floor("exhausted_then_polled", 1000)
     .floor("long_input_scans", 10)
     .floor("history_ops", 100_000);
